@@ -605,6 +605,19 @@ def rule_single_consumption(prog, run):
         raise AnalysisBroken('C01.R5: QXmppStanza::parse no longer consumes <error/> and <addresses/> (found %s)' % sorted(consumed))
     found = 0
 
+    # does the typed writer give the element a namespace of its own?  (<addresses xmlns=.../> yes; <error/> no: it inherits whatever the stanza has - none in the
+    # library's own output form, jabber:client or jabber:server on a stream - so an exclusion that asks for one namespace lets the others through)
+    own_ns = {}
+    for w in prog.fns.values():
+        if w.entry is None or w.qname not in ('QXmppStanza::Error::toXml', 'QXmppStanza::extensionsToXml'):
+            continue
+        calls = [(i, n) for i, n in w.calls() if (w.cname(n) or '').startswith('QXmlStreamWriter::write')]
+        for k, (i, n) in enumerate(calls):
+            if (w.cname(n) or '').endswith('writeStartElement') and n.get('args'):
+                nm = w.strval(n['args'][-1]) or w.strval(n['args'][0])
+                if nm in ('error', 'addresses'):
+                    own_ns[nm] = k + 1 < len(calls) and (w.cname(calls[k + 1][1]) or '').endswith('writeDefaultNamespace')
+
     def excluded(f, nid, name):
         """the guards dominating nid exclude children named `name`"""
         for x, p in f.atomic_assertions_at(nid):
@@ -613,6 +626,10 @@ def rule_single_consumption(prog, run):
             t = f.fmt(x)
             if ('"%s"' % name) not in t:
                 continue
+            xn = f.nodes[f.skip(x)]
+            if xn['k'] == 'call' and (f.cname(xn) or '').endswith('checkElement') and len([a for a in xn.get('args', []) if f.nodes[a]['k'] != 'defarg']) >= 3 \
+                    and not own_ns.get(name, False):
+                continue        # excludes the element in one namespace only, while the writer emits it without a namespace of its own
             bo = f.binop(x)
             if bo and ((bo[0] == '!=' and p) or (bo[0] == '==' and not p)):
                 return True
